@@ -67,7 +67,7 @@ func itoa(i int) string { return strconv.Itoa(i) }
 
 // ---------------------------------------------------------------- documents for the RFC 6902 harnesses
 
-const nDocShapes = 18
+const nDocShapes = 19
 
 // docShape builds document shape i; leaves are symbolic.
 func docShape(i int, pfx string) *JV {
@@ -111,6 +111,9 @@ func docShape(i int, pfx string) *JV {
 		return jObj().with("q", litNum(pfx, 0)).with("b", litNum(pfx, 1)).with("z", litNum(pfx, 2)).with("a", litNum(pfx, 3)).with("m", litNum(pfx, 4)).with("c", litNum(pfx, 5))
 	case 17:
 		return jArr(litNum(pfx, 2), jObj().with("y", litNum(pfx, 0)).with("x", litNum(pfx, 3)), litNum(pfx, 5), litNum(pfx, 1))
+	case 18:
+		// member names made of the two RFC 6901 metacharacters: every decoding order slip lands on a sibling
+		return jObj().with("~1", n(0)).with("/", n(1)).with("~0", n(2)).with("~", jObj().with("/0", n(3)).with("~1", n(4)))
 	}
 	panic("docShape")
 }
@@ -150,9 +153,9 @@ func chooseMask(name string, mask, n int) int {
 	return idx[vx.Choose(name, len(idx))]
 }
 
-// genTok builds one reference token. kinds (bits of tokMask): 0 = one symbolic byte, 1 = two, 2 = "a~0b", 3 = "c~1d", 4 = three symbolic bytes, 5 = "a".
+// genTok builds one reference token. kinds (bits of tokMask): 0 = one symbolic byte, 1 = two, 2 = "a~0b", 3 = "c~1d", 4 = three symbolic bytes, 5 = "a", 6 = ~0/~1 optionally followed by 0/1.
 func genTok(name string, tokMask int) Tok {
-	switch chooseMask(name+".kind", tokMask, 6) {
+	switch chooseMask(name+".kind", tokMask, 7) {
 	case 0:
 		b := []byte{symTokByte(name + ".0")}
 		return Tok{Raw: b, Name: b}
@@ -168,6 +171,17 @@ func genTok(name string, tokMask int) Tok {
 		return Tok{Raw: b, Name: b}
 	case 5:
 		return Tok{Raw: []byte("a"), Name: []byte("a")}
+	case 6:
+		// one escape followed by an optional 0/1: ~0, ~1, ~00, ~01, ~10, ~11 (names ~, /, ~0, ~1, /0, /1)
+		esc := vx.Choose(name+".esc", 2)
+		tail := vx.Choose(name+".tail", 3)
+		raw := []byte{'~', byte('0' + esc)}
+		nm := []byte{"~/"[esc]}
+		if tail > 0 {
+			raw = append(raw, byte('0'+tail-1))
+			nm = append(nm, byte('0'+tail-1))
+		}
+		return Tok{Raw: raw, Name: nm}
 	}
 	panic("genTok")
 }
